@@ -82,6 +82,8 @@ package chronicler
 //@   overflow: assumed
 //@   requires[wired] c.filesystemInterface != nil && indexObj != nil
 //@   modifies *
+//@   loop 0 invariant[every_record_so_far_decoded] treasures != nil && (calls("Treasure.LoadFromByte") > old(calls("Treasure.LoadFromByte")) ==> isnil(lastret("Treasure.LoadFromByte"))) && calls("Beacon.PushManyFromMap") == old(calls("Beacon.PushManyFromMap"))
+//@   loop 1 invariant[every_record_so_far_decoded_inner] (calls("Treasure.LoadFromByte") > old(calls("Treasure.LoadFromByte")) ==> isnil(lastret("Treasure.LoadFromByte"))) && calls("Beacon.PushManyFromMap") == old(calls("Beacon.PushManyFromMap"))
 //@   loop 1 invariant[every_decoded_record_is_kept] treasures != nil && (rangeindex >= 0 ==> has(treasures, icall("GetKey", lastarg("Treasure.LoadFromByte", 0))) && treasures[icall("GetKey", lastarg("Treasure.LoadFromByte", 0))] == lastarg("Treasure.LoadFromByte", 0))
 //@   ensures[handed_over_at_most_once] calls("Beacon.PushManyFromMap") <= old(calls("Beacon.PushManyFromMap")) + 1
 //@   ensures[undecodable_record_aborts] calls("Treasure.LoadFromByte") > old(calls("Treasure.LoadFromByte")) && !isnil(lastret("Treasure.LoadFromByte")) ==> calls("Beacon.PushManyFromMap") == old(calls("Beacon.PushManyFromMap"))
